@@ -19,7 +19,7 @@ from .common import iter_stores, reaching_assignments, self_attr_of
 
 EXPLANATION = (
     "R1 both directions end in a two-sided clamp: __call__ to the internal box (self.lb, self.ub), inverse_transf to the original box "
-    "(must-tag dataflow over every return). R5 the masking helper is 'copy, then 0 on ~mask' or np.where(mask, v, 0), never v * mask (inf * 0 = NaN). R2 algebra on the lambdas defining g / ginv (translated to sympy terms; maskindex(v, m) is v on the "
+    "(must-tag dataflow over every return). R6 the internal boxes are g(pristine original bounds) (provenance of the returned tuple elements). R5 the masking helper is 'copy, then 0 on ~mask' or np.where(mask, v, 0), never v * mask (inf * 0 = NaN). R2 algebra on the lambdas defining g / ginv (translated to sympy terms; maskindex(v, m) is v on the "
     "coordinates selected by m): z(x) = (x - mu)/gamma on ~log, zlog(x) = (log(|x| + [x = 0]) - mu)/gamma on log, with complementary masks "
     "shared by g and ginv; ginv(g(x)) = x on the linear branch and, for x > 0, on the log branch; mu, gamma = midpoint, half-width of the "
     "(internal) plausible bounds so that g(plb) = -1, g(pub) = +1 and the slope 1/gamma resp. 1/(gamma x) is positive under the dominating "
@@ -28,6 +28,76 @@ EXPLANATION = (
     "nonlinear_scaling is off. R4 integer spellings are cast to float before the in-place log stores (shared with C08-R3). The round-trip "
     "accuracy 1e-9 and behaviour 'slightly outside' the box as numbers are not decided."
 )
+
+
+def _box_images(ctx, prog, T):
+    """self.lb / self.ub / self.plb / self.pub are unpacked from the construction routine; each returned element must be
+    ``g(self.<A>)`` with <A> an attribute that still holds the caller's bound of the same kind untouched (assigned in the
+    constructor from that parameter, never stored into in place).  A probe copy with the infinities replaced (the
+    round-trip self-test uses one) would turn the clamp box of an unbounded variable into a finite one."""
+    from ..flow import TagFlow
+    from .c01 import BoundProv
+    from .common import deref_expr
+
+    init = T.find_method("__init__")
+    create = None
+    for m in T.methods.values():
+        if any(isinstance(n, ast.Lambda) for n in ast.walk(m.node)) and any(isinstance(n, ast.Return) and isinstance(n.value, ast.Tuple) and len(n.value.elts) >= 6 for n in ast.walk(m.node)):
+            create = m
+    if init is None or create is None:
+        ctx.undecided("construction routine not found")
+        return
+    unpack = None
+    for n in ast.walk(init.node):
+        if isinstance(n, ast.Assign) and isinstance(n.targets[0], ast.Tuple) and isinstance(n.value, ast.Call) and any(x is create for x in prog.resolve_call(init, n.value)):
+            unpack = n
+    if unpack is None:
+        ctx.undecided("the constructor does not unpack the construction routine's result")
+        return
+    # working attribute <-> pristine copy: self.A = n ; self.B = n.copy() for the same local n
+    work, prist = {}, {}
+    for t, v, s_, k in iter_stores(init.node):
+        a_ = self_attr_of(t)
+        if a_ is None or not isinstance(t, ast.Attribute) or v is None:
+            continue
+        if isinstance(v, ast.Name):
+            work[a_] = v.id
+        elif isinstance(v, ast.Call) and isinstance(v.func, ast.Attribute) and v.func.attr == "copy" and isinstance(v.func.value, ast.Name) or (isinstance(v, ast.Call) and call_name(v) in ("np.copy", "copy.deepcopy", "deepcopy") and v.args and isinstance(v.args[0], ast.Name)):
+            src_local = v.func.value.id if isinstance(v.func, ast.Attribute) and v.func.attr == "copy" else v.args[0].id
+            prist[a_] = src_local
+    inplace = set()
+    for m in T.methods.values():
+        for t, v, s_, k in iter_stores(m.node):
+            if isinstance(t, ast.Subscript) and self_attr_of(t):
+                inplace.add(self_attr_of(t))
+            if k == "aug" and self_attr_of(t):
+                inplace.add(self_attr_of(t))
+    ret = [n for n in ast.walk(create.node) if isinstance(n, ast.Return) and isinstance(n.value, ast.Tuple)][-1]
+    gsrc = None
+    n_inst = 0
+    for i, t in enumerate(unpack.targets[0].elts):
+        if self_attr_of(t) == "g" and i < len(ret.value.elts):
+            gsrc = canon(ret.value.elts[i])
+    for i, t in enumerate(unpack.targets[0].elts):
+        a = self_attr_of(t)
+        if a is None or i >= len(ret.value.elts) or a not in work:
+            continue  # not one of the bound attributes (g, ginv, ...)
+        partners = sorted(b_ for b_, loc in prist.items() if loc == work[a])
+        e = deref_expr(prog, create, ret.value.elts[i])
+        okb, why = False, f"'{canon(e)[:60]}' is not {gsrc}(<pristine copy of the bound>)"
+        if isinstance(e, ast.Call) and canon(e.func) == gsrc and len(e.args) == 1 and isinstance(e.args[0], ast.Attribute) and self_attr_of(e.args[0]):
+            src = self_attr_of(e.args[0])
+            if src not in partners:
+                why = f"self.{src} is not the copy of the bound self.{a} starts from (that is {['self.' + x for x in partners]})"
+            elif src in inplace:
+                why = f"self.{src} is modified in place (it is not the pristine original)"
+            else:
+                okb = True
+        n_inst += 1
+        ctx.check(okb, create, ret, f"self.{a} = {gsrc}(self.{partners[0] if partners else '?'})", f"the internal box self.{a} is not the image of the original bound: {why}; the clamp of the transform then uses a different box (e.g. a finite probe value instead of an infinite bound)", construct=f"self.{a} <- {canon(e)[:60]}")
+    if n_inst == 0:
+        ctx.undecided("the constructor no longer binds the working bounds from locals it also keeps pristine copies of")
+        ctx.rules["R6"].floor = 0
 
 
 def _strip_shape(e):
@@ -352,6 +422,10 @@ def _rest(ctx, prog, R, T, create):
     ctx.rule("R4", "integer-typed bounds are cast to float before the in-place log stores", floor=4)
     _dtype_rule(ctx, prog, R, include_validator=False)
     ctx.assume("exp and log are mutually inverse on positive reals; min(FMAX, .) is the identity below overflow")
+    # ------------------------------------------------------------------ R6
+    ctx.rule("R6", "the internal boxes the clamps use are g(original bounds): images of the pristine originals, not of finite probe values", floor=4)
+    _box_images(ctx, prog, T)
+
     # ------------------------------------------------------------------ R5
     ctx.rule("R5", "the masking helper selects by assignment (copy, then 0 stored on the complement; or np.where), never by multiplication", floor=1)
     _mask_helper_rule(ctx, prog, T)
